@@ -524,3 +524,106 @@ Proof.
   unfold registered in R. apply andb_true_iff in R as [R1 R2].
   apply (s_one s I Hp x p); auto; [now apply sb_reg_replayed|congruence].
 Qed.
+
+(** * R7: a blocking Publish has waited for every message *)
+(** the messages of the call that are not yet waited for; [None]: no claim (the call failed) *)
+Definition unwaited (p : tpc) : option (list pubid) :=
+  match p with
+  | PCheck _ ms | PRLock _ ms | PTLock _ ms | PPersist _ ms | PSend _ ms => Some ms
+  | PWait _ p rem => Some (p :: rem)
+  | PTUnlock _ | PRUnlock | PDone true => Some []
+  | _ => None
+  end.
+Definition Inv7 (s : gstate) : Prop :=
+  blocking s = true -> fix7 s = true -> forall t l p,
+  unwaited (thr s t) = Some l -> In p (pmsgs s t) ->
+  In p l \/ mem p (acked s) = true \/ gclosing s = true.
+
+Lemma inv7_init pers blk fx : Inv7 (ginit pers blk fx).
+Proof. intros _ _ t l p. simpl. discriminate. Qed.
+
+Lemma inv7_step s l s' : Inv7 s -> gstep s l = Some s' -> Inv7 s'.
+Proof.
+  intros I H Hb Hf t' l' p'. revert Hb Hf. step_cases' H; simpl; intros Hb Hf;
+    pose proof (I Hb Hf) as C; try apply C; try congruence.
+  all: upd_all; simpl; try apply C; try congruence.
+  all: try match goal with |- context [panicked ?s0] => destruct (panicked s0) end; simpl; try discriminate.
+  all: intros E Hi.
+  all: try (destruct (C t' l' p' E Hi) as [A|[A|A]]; auto; right; left; rewrite A;
+            solve [apply orb_true_r]).
+  all: try (inversion E; subst l'; clear E).
+  all: try solve [auto].
+  all: match goal with E0 : thr _ ?t = _ |- _ =>
+         pose proof (C t) as Ca; rewrite E0 in Ca; simpl in Ca;
+         destruct (Ca _ p' eq_refl Hi) as [A|[A|A]]; simpl in *; auto end.
+  all: try (right; left; rewrite A; solve [apply orb_true_r]).
+  all: destruct A as [<-|A]; auto.
+  all: try (rewrite Nat.eqb_refl; auto).
+  all: match goal with G : _ || _ = true |- _ => apply orb_true_iff in G; tauto end.
+Qed.
+
+Theorem reg_inv7 pers blk fx ls : Inv7 (grun (ginit pers blk fx) ls).
+Proof. apply grun_ind; [exact inv7_step|apply inv7_init]. Qed.
+
+(** a blocking Publish that returned nil: each of its messages was acked by all subscribers
+    of its snapshot, or the Pub/Sub was being closed, when the call stopped waiting for it *)
+Theorem blocking_waits pers ls t p : let s := grun (ginit pers true true) ls in
+  thr s t = PDone true -> In p (pmsgs s t) -> mem p (acked s) = true \/ gclosing s = true.
+Proof.
+  intros s E Hi. destruct (grun_cfg (ginit pers true true) ls) as (_ & Hb & Hf).
+  assert (U : unwaited (thr s t) = Some []) by (now rewrite E).
+  destruct (reg_inv7 pers true true ls Hb Hf t [] p U Hi) as [A|A]; [destruct A|exact A].
+Qed.
+(** ... and the same for a call that is still under way: what it no longer waits for *)
+Theorem blocking_waits_pc pers ls t l p : let s := grun (ginit pers true true) ls in
+  unwaited (thr s t) = Some l -> In p (pmsgs s t) ->
+  In p l \/ mem p (acked s) = true \/ gclosing s = true.
+Proof.
+  intros s. destruct (grun_cfg (ginit pers true true) ls) as (_ & Hb & Hf).
+  exact (reg_inv7 pers true true ls Hb Hf t l p).
+Qed.
+
+
+(** * R8: after Close has returned *)
+Lemma after_close_state s t : Inv s -> thr s t = CDone ->
+  closed s = true /\ wg s = 0 /\ (forall k, subs s k = [])
+  /\ (forall x, td s x = DNone \/ td_post (td s x) = true).
+Proof.
+  intros (I0 & I1 & _) E.
+  assert (Hc : closed s = true) by (apply (r_closer s I1 t); now rewrite E).
+  assert (Hw : wg s = 0) by (apply (r_waited s I1 t); now rewrite E).
+  assert (Hn : forall x, counted s x = false).
+  { intros x. destruct (counted s x) eqn:Ec; [|reflexivity]. apply (counted_wg s x I1) in Ec. lia. }
+  repeat split; auto.
+  - intros k. destruct (subs s k) as [|x l] eqn:Es; [reflexivity|].
+    assert (Hx : 0 < cnt x (subs s k)) by (rewrite Es; simpl; rewrite Nat.eqb_refl; lia).
+    destruct (in_subs s x k I1 Hx) as (_ & R & _). specialize (Hn x).
+    unfold registered, counted in *. apply andb_true_iff in R as [R1 R2].
+    destruct (sb s x), (td s x); simpl in *; discriminate.
+  - intros x. specialize (Hn x). unfold counted in Hn. pose proof (o_early s I0 x) as Oe.
+    destruct (td s x) eqn:Ed; simpl; auto; destruct (sb s x); simpl in *;
+      try discriminate; try (specialize (Oe eq_refl); discriminate).
+Qed.
+Theorem after_close pers blk fx ls t : let s := grun (ginit pers blk fx) ls in
+  thr s t = CDone ->
+  closed s = true /\ wg s = 0 /\ (forall k, subs s k = [])
+  /\ (forall x, td s x = DNone \/ td_post (td s x) = true).
+Proof. intros s. apply after_close_state. apply reg_inv. Qed.
+
+(** ... and from then on ([closed] is never reset) Publish and Subscribe return an error *)
+Lemma closed_mono_step s l s' : closed s = true -> gstep s l = Some s' -> closed s' = true.
+Proof. intros Hc H. step_cases H; simpl; congruence. Qed.
+Theorem closed_mono s ls : closed s = true -> closed (grun s ls) = true.
+Proof. intros Hc. apply grun_ind; [intros; eapply closed_mono_step; eauto|exact Hc]. Qed.
+Theorem after_close_publish s t k ms s' : closed s = true -> thr s t = PCheck k ms ->
+  gstep s (GT t) = Some s' -> thr s' t = PDone false.
+Proof.
+  intros Hc E H. simpl in H. rewrite E, Hc in H. destruct (clock s); inversion H; subst; simpl.
+  apply upd_same.
+Qed.
+Theorem after_close_subscribe s x k s' : closed s = true -> sb s x = SCheck k ->
+  gstep s (GS_ x) = Some s' -> sb s' x = SFail.
+Proof.
+  intros Hc E H. simpl in H. rewrite E, Hc in H. destruct (clock s); inversion H; subst; simpl.
+  apply upd_same.
+Qed.
